@@ -80,6 +80,9 @@ func craftedInputs() [][]byte {
 		"4d00519051905a", "4301619101626051 90", // map / object referring to itself
 		"4305496e6e6572920001736090 0161", "4305496e6e65729201610173609001 61", // known class (Inner) defined with an EMPTY field name, then a well-formed Inner: the second must still decode
 		"4305496e6e657292016101736090 0161", "4305496e6e65729200006090 90", "4305496e6e6572910060 90",
+		// two values on one stream: an object whose []int32 field holds an EMPTY untyped list, then a bare reference to that list
+		"4307536c496e7433329101766078 5191", "4307536c496e7433329101766078 5190", "4305536c5374729101766078 5191 5191",
+		"4307536c496e743332910176607991 5191", "78 5190", "57 5a 5190 5190", "48 5a 5190",
 	} {
 		out = append(out, h(s))
 	}
@@ -156,6 +159,11 @@ func c14run(env *Env, res *Result, c Case, sub int, input []byte, tmName string,
 	allocBudget := uint64(1<<20 + 4096*len(input))
 	callBudget := 4096 + 64*len(input)
 	base := append([]string{"typemap=" + tmName}, feats...)
+	tmLen := len(tm)
+	tmKeys := make(map[string]struct{}, len(tm))
+	for k := range tm {
+		tmKeys[k] = struct{}{}
+	}
 	for ei, entry := range c14entries {
 		res.Evals++
 		res.Count("entry="+entry, 1)
@@ -212,6 +220,14 @@ func c14run(env *Env, res *Result, c Case, sub int, input []byte, tmName string,
 		})
 		cpu := mon.CPUSeconds() - cpu0
 		res.Max("alloc_bytes_per_call", int64(alloc))
+		if len(tm) != tmLen {
+			viol("typemap-written", fmt.Sprintf("the caller's type map grew from %d to %d entries during the call (hostile input must not write to a map that other decoders share)", tmLen, len(tm)))
+			for k := range tm {
+				if _, ok := tmKeys[k]; !ok {
+					delete(tm, k)
+				}
+			}
+		}
 		if err != nil {
 			res.Count("returned_error", 1)
 		} else if pi == nil && bud == nil {
@@ -317,7 +333,20 @@ func mutate(r *rand.Rand, valid []byte, root *hspec.Value, p *hspec.Parser) ([]b
 				out = append(out, valid[m.Ann.End:]...)
 				return out, "transpose-subvalues"
 			}
-		case 8: // class definition field count edit
+		case 8: // class definition: prefix / edit the class NAME, or edit the field count
+			if len(p.Classes) > 0 && r.Intn(2) == 0 {
+				cd := p.Classes[r.Intn(len(p.Classes))]
+				nl := int(valid[cd.Off+1])
+				if nl > 0 && nl <= 20 {
+					name := string(valid[cd.Off+2 : cd.Off+2+nl])
+					pre := fmt.Sprintf("p%dx%d.", r.Intn(9), r.Intn(1000))
+					nn := pre + name
+					out := append([]byte{}, valid[:cd.Off+1]...)
+					out = append(out, byte(len(nn)))
+					out = append(out, nn...)
+					return append(out, valid[cd.Off+2+nl:]...), "class-name-prefix"
+				}
+			}
 			if len(p.Classes) > 0 {
 				cd := p.Classes[r.Intn(len(p.Classes))]
 				// the field count follows the class name string
